@@ -35,6 +35,7 @@ import (
 	"time"
 
 	"github.com/AliceO2Group/Control/apricot"
+	"github.com/AliceO2Group/Control/common/controlmode"
 	"github.com/AliceO2Group/Control/common/event"
 	"github.com/AliceO2Group/Control/common/gera"
 	"github.com/AliceO2Group/Control/common/logger/infologger"
@@ -707,6 +708,7 @@ func (m *Manager) configureTasks(envId uid.ID, tasks Tasks) error {
 	// We fetch each task's local bindMap to generate a global bindMap for the whole Tasks slice,
 	// i.e. a map of the paths of registered inbound channels and their ports.
 	bindMap := make(channel.BindMap)
+	bindHosts := make(map[string]string) // bindMap key -> host of the task that binds the endpoint
 	for _, task := range tasks {
 		if task.GetParent() == nil { // Crash reported here by Roberto 6/2022
 			return fmt.Errorf("task %s on %s has nil parent, this should never happen", task.GetClassName(), task.GetHostname())
@@ -744,6 +746,19 @@ func (m *Manager) configureTasks(envId uid.ID, tasks Tasks) error {
 				bindMapKey = taskPath + TARGET_SEPARATOR + inbChName
 			}
 			bindMap[bindMapKey] = endpoint.ToTargetEndpoint(task.GetHostname())
+			bindHosts[bindMapKey] = task.GetHostname()
+		}
+	}
+	// an ipc:// endpoint exists on the host of the task that binds it only
+	for _, task := range tasks {
+		class := task.GetTaskClass()
+		if class == nil || (class.Control.Mode != controlmode.FAIRMQ && class.Control.Mode != controlmode.DIRECT) {
+			continue
+		}
+		for _, ch := range channel.MergeOutbound(task.GetParent().CollectOutboundChannels(), class.Connect) {
+			if endpoint, ok := bindMap[ch.Target]; ok && endpoint.GetAddressFormat() == channel.IPC && bindHosts[ch.Target] != task.GetHostname() {
+				return fmt.Errorf("outbound channel %s of task %s on %s cannot connect to %s: IPC endpoint bound on %s", ch.Name, task.GetName(), task.GetHostname(), ch.Target, bindHosts[ch.Target])
+			}
 		}
 	}
 	log.WithFields(logrus.Fields{"bindMap": pp.Sprint(bindMap), "envId": envId.String()}).
